@@ -22,6 +22,7 @@ import ThaiLintModel.C15.Drv
 import ThaiLintModel.C16.Drv
 import ThaiLintModel.C17.Drv
 import ThaiLintModel.C18.Drv
+import ThaiLintModel.C19.Drv
 import ThaiLintModel.C20.Drv
 open Lean
 
@@ -45,6 +46,7 @@ def dispatch (j : Json) : Json :=
   | "C16" => ThaiLintModel.C16.handle j
   | "C17" => ThaiLintModel.C17.handle j
   | "C18" => ThaiLintModel.C18.handle j
+  | "C19" => ThaiLintModel.C19.handle j
   | "C20" => ThaiLintModel.C20.handle j
   | p => Json.mkObj [("error", s!"unknown prop {p}")]
 
